@@ -508,6 +508,9 @@ func init() {
 			if !c.Mine(idx) {
 				continue
 			}
+			if sr.Bail() {
+				break
+			}
 			rg := eng.NewRng(c.CaseSeed(idx))
 			p := genC05Program(rg, c.Thorough())
 			p.Prop = "C05"
@@ -529,6 +532,9 @@ func init() {
 			idir := filepath.Join(c.Scratch, fmt.Sprintf("img%06d", idx))
 			seenClass := map[string]bool{}
 			for _, img := range images {
+				if sr.Bail() {
+					break
+				}
 				files := buildImage(trace, img, killOnly)
 				c.Progress(idx, c05Replay{Program: p, Image: img})
 				cls, disc, det := checkImage(p.Cfg, world, uni, marks, trace, img, files, idir, sr)
